@@ -54,6 +54,87 @@ def gen_history(rnd) -> dict | None:
     return fam
 
 
+def impl_self_history(spec: dict) -> dict:
+    """Worker side: one class whose method is decorated with "self"; several instances with their own values; calls
+    through the bound method or through the class attribute."""
+    case = spec["case"]
+    ns = I.base_ns()
+    log: list = []
+    retbox = [None]
+    ns.update({"LOG": log, "RETVAL": retbox, "RAISE": False, "BodyError": I.BodyError, "PROVIDER": None, "DEFAULTS": {}})
+    src = I.fn_source(case)
+    cls_src = ("class K:\n" + "".join("    " + ln + "\n" for ln in src.splitlines())
+               + "    def __init__(self, sc):\n        self.scope = sc\n        self.calls = 0\n"
+               + "    def get_dltype_scope(self):\n        self.calls += 1\n        return dict(self.scope)\n")
+    try:
+        exec(compile(cls_src, "<case>", "exec", dont_inherit=True), ns)  # noqa: S102
+    except BaseException as e:  # noqa: BLE001
+        return {"v": "decerr", "exn": type(e).__name__, "src": cls_src}
+    K = ns["K"]
+    insts = [K(dict(sc)) for sc in spec["instances"]]
+    outcomes = []
+    for st in spec["steps"]:
+        if "set" in st:
+            insts[st["set"]].scope = dict(st["scope"])
+            outcomes.append({"v": "set"})
+            continue
+        args = {k: I.value_obj(v) for k, v in st["args"].items()}
+        retbox[0] = I.value_obj(st["retval"]) if st.get("retval") is not None else None
+        inst = insts[st["inst"]]
+        before = [x.calls for x in insts]
+        try:
+            if st.get("via") == "class":
+                K.f(inst, **args)
+            elif st.get("via") == "selfkw":
+                K.f(self=inst, **args)
+            else:
+                inst.f(**args)
+            o = {"v": "accept"}
+        except BaseException as e:  # noqa: BLE001
+            o = I.canon_exc(e)
+        o["consulted"] = [x.calls - b for x, b in zip(insts, before)]
+        outcomes.append(o)
+    return {"v": "ok", "outcomes": outcomes, "src": cls_src}
+
+
+def gen_self_history(rnd) -> dict:
+    base = GC.gen_case(rnd, tuples=0.1, plain=0.1, optionals=0.1, with_provider=1.0, with_ret=0.4)
+    base["provider"]["kind"] = "self"
+    base["method"] = True
+    scope0 = dict(base["provider"]["scope"])
+    used = [x for x in scope0 if x in base.get("rho", {})] or list(scope0)
+    insts = [scope0]
+    for _ in range(rnd.choice([1, 2])):
+        sc = dict(scope0)
+        if used and rnd.random() < 0.8:
+            k = rnd.choice(used)
+            sc[k] = rnd.choice([v for v in GC.SIZES if v != sc[k]])
+        elif sc and rnd.random() < 0.5:
+            sc.pop(rnd.choice(list(sc)))
+        insts.append(sc)
+    steps = []
+    cur = [dict(sc) for sc in insts]
+    for _ in range(rnd.choice([3, 4, 6])):
+        if rnd.random() < 0.15:
+            i = rnd.randrange(len(insts))
+            sc = dict(cur[i])
+            if sc:
+                k = rnd.choice(list(sc))
+                sc[k] = rnd.choice(GC.SIZES)
+            cur[i] = sc
+            steps.append({"set": i, "scope": sc})
+            continue
+        c = base
+        if rnd.random() < 0.25:
+            p = GC.perturb(rnd, base)
+            if p:
+                c = p[0]
+        i = rnd.randrange(len(insts))
+        steps.append({"inst": i, "args": copy.deepcopy(c["args"]), "retval": copy.deepcopy(c.get("retval")),
+                      "via": rnd.choice(["bound", "bound", "class", "selfkw"]), "scope_now": dict(cur[i])})
+    return {"case": {k: base[k] for k in ("form", "params", "ret", "provider", "method")} | {"args": {}, "retval": None}, "instances": insts, "steps": steps}
+
+
 def single_cases(rnd, n: int) -> list[tuple[str, dict]]:
     out = []
     c = sig_case([("x", "a n")], [(2, 5)], provider={"kind": "free", "scope": "bad"})
@@ -102,10 +183,13 @@ def run(tier: str, seed: int, rep: Report, model: Model) -> dict:
         if h:
             hists.append(h)
     singles = single_cases(rnd, n_single)
+    selfs = [gen_self_history(rnd) for _ in range(150 if tier == "quick" else 1500)]
+    rep.streams.update({"provider_histories": n_hist, "single_calls": len(singles), "self_instance_histories": len(selfs)})
     worker = ImplWorker("harness.props.c12")
     try:
         hres = worker.call_many("impl_family", hists, timeout=60.0)
         sres = worker.call_many("impl_fn", [c for _, c in singles])
+        selfres = worker.call_many("impl_self_history", selfs, timeout=60.0)
     finally:
         worker.close()
     for fam, res in zip(hists, hres):
@@ -126,6 +210,40 @@ def run(tier: str, seed: int, rep: Report, model: Model) -> dict:
                 continue
             if tuple(str(o.get(k)) for k in KEYS) != tuple(str(e.get(k)) for k in KEYS):
                 rep.violation({"what": "a call was not checked against the provider's current values", "step": i, "got": o, "expected": e, **rec})
+                break
+        if rep.many_violations():
+            break
+    # (c) "self" providers: several instances of one class, each call against the values of ITS instance at that moment
+    for spec, res in zip(selfs, selfres):
+        if "__skipped__" in res:
+            continue
+        differing = len({str(sorted(sc.items())) for sc in spec["instances"]}) > 1
+        brief = {"method": ctxrun.brief({**spec["case"], "args": {}}), "instances": spec["instances"],
+                 "steps": [(("set", st["set"], st["scope"]) if "set" in st else (st["inst"], st["via"])) for st in spec["steps"]]}
+        rep.case(str(brief) + str(spec["steps"]), brief, nontrivial=differing)
+        rep.count(f"self_history:{res.get('v')}")
+        rec = {"self_history": brief, "steps": spec["steps"]}
+        if res.get("v") != "ok":
+            rep.violation({"what": "the class could not be defined", "result": {k: v for k, v in res.items() if k != "src"}, **rec})
+            continue
+        calls = [(i, st) for i, st in enumerate(spec["steps"]) if "inst" in st]
+        reqs = []
+        for _, st in calls:
+            c = copy.deepcopy(spec["case"])
+            c["provider"] = {"kind": "self", "scope": dict(st["scope_now"]), "fresh": True}
+            c["args"], c["retval"] = st["args"], st.get("retval")
+            reqs.append(I.fn_case_sx(c))
+        for (i, st), ans in zip(calls, model.ask_many(reqs) if reqs else []):
+            e = ctxrun.norm_model(ans)
+            if e.get("v") == "identity":
+                e = {"v": "accept"}
+            o = res["outcomes"][i]
+            if tuple(str(o.get(k)) for k in KEYS) != tuple(str(e.get(k)) for k in KEYS):
+                rep.violation({"what": "a method call was not checked against the values of the instance it was called on", "step": i, "got": o, "expected": e, **rec})
+                break
+            others = [n for j, n in enumerate(o.get("consulted", [])) if j != st["inst"] and n]
+            if others:
+                rep.violation({"what": "another instance's provider was consulted for this call", "step": i, "got": o, **rec})
                 break
         if rep.many_violations():
             break
